@@ -6,6 +6,7 @@ UnionNode, JoinNode and real tasks), replays every case on the model and on the 
 -/
 import Kap.Basic
 import Kap.Spec.C12
+import Kap.Proofs.C12CQ
 open Kap Kap.C12
 
 namespace Kap.C12.Drv
@@ -51,8 +52,8 @@ def cqBranches (q : CQ Nat) (op : String) (n : Int) : List String :=
 
 def uRenderOut (o : List (Nat × UMsg)) : String := renderList (o.map (fun p => s!"{p.2.id}:{p.2.time}:{esc p.2.name}"))
 
-def uRenderState (s : UState (CQ UMsg)) : String :=
-  "S;" ++ renderList (s.sources.map (fun q => s!"{q.head}.{q.tail}.{q.len}.{q.cap}")) ++ ";" ++ renderList (s.lowMarks.map optT)
+def uRenderState (s : UState (WCQ UMsg)) : String :=
+  "S;" ++ renderList (s.sources.map (fun q => s!"{q.1.head}.{q.1.tail}.{q.1.len}.{q.1.cap}")) ++ ";" ++ renderList (s.lowMarks.map optT)
 
 /-! ### join -/
 
@@ -118,7 +119,7 @@ structure St where
   cq : CQ Nat := CQ.new []
   cqSpec : List Nat := []
   -- union
-  un : UState (CQ UMsg) := Union.init 0
+  un : UState (WCQ UMsg) := Union.init 0
   uN : Nat := 0
   uRename : String := ""
   uArr : List (Nat × UMsg) := []          -- arrivals so far (renamed), reversed
@@ -248,7 +249,7 @@ def judgeLine (st : St) (l : String) : Except Verdict St := do
     judgeJoin st l obs { groups := gs } sets status [] true
   | _ => throw (.badop l)
 where
-  judgeUnion (st : St) (l : String) (obs : List String) (s' : UState (CQ UMsg)) (out : List (Nat × UMsg)) (ok : Bool) (fin : Bool) :
+  judgeUnion (st : St) (l : String) (obs : List String) (s' : UState (WCQ UMsg)) (out : List (Nat × UMsg)) (ok : Bool) (fin : Bool) :
       Except Verdict St := do
     if obs == ["dead"] then throw (.mismatch s!"{l}: union node is dead")
     if obs == ["panic"] || obs == ["err"] then throw (.specfail "union-total" s!"{l}: the union node failed ({obs})")
@@ -283,8 +284,8 @@ where
     st := addBr st (if out.isEmpty then (if st.un.lowMarks.any Option.isNone then "u-wait-for-silent-parent" else "u-nothing-ready") else "u-emit")
     if !ordered then st := addBr st "u-unordered-parent"
     if st.uRename != "" then st := addBr st "u-rename"
-    if s'.sources.any (fun q => q.head > 0) then st := addBr st "u-queue-head-moved"
-    if s'.sources.any (fun q => q.cap > 4) then st := addBr st "u-queue-grown"
+    if s'.sources.any (fun q => q.1.head > 0) then st := addBr st "u-queue-head-moved"
+    if s'.sources.any (fun q => q.1.cap > 4) then st := addBr st "u-queue-grown"
     if (out.map (·.1)).eraseDups.length ≥ 2 then st := { addBr st "u-emit-from-several" with nontrivial := true }
     if fin then
       st := addBr st (if out.isEmpty then "u-finish-nothing-buffered" else "u-finish-flushes")
